@@ -183,3 +183,34 @@ func TestMapIterChoice(t *testing.T) {
 		t.Fatalf("orders: %v", seen)
 	}
 }
+
+// A full buffered channel with a receiver that has not taken its item yet: the sender must wait.
+func TestFullBufferWithPendingReceiver(t *testing.T) {
+	outs := map[string]int{}
+	var got string
+	exploreAll(t, 2, func() {
+		got = ""
+		ch := vsched.MakeChan[int](1)
+		vsched.GoClient("p", func() {
+			for i := 0; i < 3; i++ {
+				vsched.Send(ch, i)
+			}
+			vsched.Close(ch)
+		})
+		for {
+			v, ok := vsched.Recv2(ch)
+			if !ok {
+				break
+			}
+			got += string(rune('0' + v))
+		}
+	}, func(r *vsched.Result) {
+		if !r.RootDone || len(r.Panics) > 0 {
+			t.Fatalf("blocked=%v panics=%v", r.Blocked, r.Panics)
+		}
+		outs[got]++
+	})
+	if len(outs) != 1 || outs["012"] == 0 {
+		t.Fatalf("outs %v", outs)
+	}
+}
